@@ -19,6 +19,7 @@ use serde_json::json;
 
 pub fn run_case(ctx: &Ctx, case: u64, ev: &mut Ev) {
     let mut rng = Rng::derive(ctx.seed, "C06", case);
+    rng.big = ctx.tier == crate::Tier::Thorough && rng.chance(0.2);
     if rng.chance(0.65) {
         run_tree(case, &mut rng, ev);
     } else {
@@ -56,7 +57,7 @@ fn total_tree(rng: &mut Rng, case: u64, ev: &mut Ev) -> Option<(AffTree<2>, Vec<
     let mut out_dim = 1 + rng.below(3);
     let mut t: AffTree<2> = if rng.chance(0.5) {
         let mut cfg = TreeCfg::basic(2, n, out_dim, rg);
-        cfg.max_depth = 1 + rng.below(4);
+        cfg.max_depth = 1 + rng.below(if rng.big { 6 } else { 4 });
         cfg.p_contra = 0.5;
         cfg.p_stop = 0.15;
         let sp = gen::spec(rng, &cfg);
@@ -68,7 +69,7 @@ fn total_tree(rng: &mut Rng, case: u64, ev: &mut Ev) -> Option<(AffTree<2>, Vec<
         hist.push(format!("from_aff ({})", rg.name()));
         AffTree::<2>::from_aff(a.to_lib())
     };
-    let steps = 1 + rng.below(4);
+    let steps = 1 + rng.below(if rng.big { 6 } else { 4 });
     for _ in 0..steps {
         if t.len() > 300 {
             break;
@@ -220,8 +221,8 @@ fn run_net(case: u64, rng: &mut Rng, ev: &mut Ev) {
     let mut neurons = 0;
     let nl = 1 + rng.below(3);
     for _ in 0..nl {
-        let w = 1 + rng.below(3);
-        if neurons + w > 7 {
+        let w = 1 + rng.below(if rng.big { 4 } else { 3 });
+        if neurons + w > if rng.big { 9 } else { 7 } {
             break;
         }
         layers.push(L::Linear(gen::aff(rng, w, dim, rg)));
